@@ -17,7 +17,7 @@ open TrDsl MG
 
 /-! ### small facts -/
 
-theorem mem_regularNodes {G : MG Name} {v : Name} : v ∈ regularNodes G ↔ v ∈ G.nodes ∧ isTnode v = false := by
+theorem mem_regularNodes_iff {G : MG Name} {v : Name} : v ∈ regularNodes G ↔ v ∈ G.nodes ∧ isTnode v = false := by
   unfold regularNodes
   rw [List.mem_filter]
   simp
@@ -109,13 +109,13 @@ theorem qline4_inv {M q G} (h : QInv M q G) (hT : ∀ t ∈ G.nodes, isTnode t =
       · refine Or.inr ⟨ha, ?_⟩
         intro e heG ht
         apply mem_diff'.2
-        refine ⟨mem_regularNodes.2 ⟨(h.wfG.di_mem e heG).2, h.tplG e heG⟩, ?_⟩
+        refine ⟨mem_regularNodes_iff.2 ⟨(h.wfG.di_mem e heG).2, h.tplG e heG⟩, ?_⟩
         intro hec
         exact (hcH _ hec).2 (he e heG ht)
   · obtain ⟨D', hD', w, hwD, hwc⟩ := exists_other_district hH hc (by omega)
     have hwH : w ∈ G.nodes ∧ w ∉ q.X :=
       (mem_nodes_removeNodes G h.wfG q.X w).1 ((districts_cover _ hH w).2 ⟨D', hD', hwD⟩)
-    have hwR : w ∈ regularNodes G := mem_regularNodes.2 ⟨hwH.1, regular_of_not_mem_X hT hwH.1 hwH.2⟩
+    have hwR : w ∈ regularNodes G := mem_regularNodes_iff.2 ⟨hwH.1, regular_of_not_mem_X hT hwH.1 hwH.2⟩
     have hlt : (diff' (regularNodes G) (diff' (regularNodes G) c)).length < (diff' (regularNodes G) q.X).length := by
       unfold diff'
       apply length_filter_lt_of_mem (w := w) _ hwR
